@@ -54,6 +54,10 @@ chk("C20","exploration","direct stress of common.AsyncMapReduce under hook-drive
  "Held on the calls explored: each item mapped once, each success reduced once and never concurrently, nothing happens after return, errors returned as injected, accumulator equals the fold, no goroutine left, no race.",
  "Trusted: hook points placed before each channel operation; the 'exhaustive on a model' half of the quantifier is outside this technique family (see DESIGN.md).","DESIGN.md §5 C20")
 
+chk("C14","exploration","differential runtime monitor over request histories: caching gateway vs stateless twin gateway, sequential and 8-way concurrent issue with hook jitter; race detector as a verdict",
+ "Held on the histories explored (colliding operation pools, ttl 0 / 1 ms straddled / 1 h, sequential and concurrent): every response of the caching gateway equals the plain gateway's answer to the same operation; no data race on shared cached plans.",
+ "Trusted: the plain gateway is stateless (self-checked per pool entry; a non-deterministic plain answer makes the case inconclusive).","DESIGN.md §5 C14")
+
 claimed=set(C)
 na=[{"property_id":p['id'],"reason":"check under construction in this round; not claimed yet"} for p in props if p['id'] not in claimed]
 m={"version":1,"setup_cmd":"./run.sh build && ./run.sh selftest",
